@@ -691,3 +691,46 @@ Definition metrics (s : traph) : trie_metrics :=
        (count_if (fun p => blk_has_tail (snd p)) bs)
        (count_if (fun p => negb (blk_is_tail (snd p))) bs)
        (max_run bs).
+
+(* Traph.links_metrics(): the longest deduplicated in- and out-list over all blocks in address order
+   (the first maximum wins), with the LRU wound up from that block; ([], 0) when there is no link *)
+Definition links_metrics (s : traph) : N * bytes * N * bytes :=
+  fold_left (fun (acc : N * bytes * N * bytes) (p : N * tblock) =>
+               let '(mi, li, mo, lo) := acc in
+               let a := fst p in
+               let b := snd p in
+               let il := if b_in b =? 0 then 0 else blen (deduped (targets_of (stubs s) (b_in b))) in
+               let ol := if b_out b =? 0 then 0 else blen (deduped (targets_of (stubs s) (b_out b))) in
+               let mli := if mi <? il then (il, lru_at a s) else (mi, li) in
+               let mlo := if mo <? ol then (ol, lru_at a s) else (mo, lo) in
+               (fst mli, snd mli, fst mlo, snd mlo))
+            (flatten (tr s)) (0, [], 0, []).
+
+(* LRUTrie.bst_metrics(), integer figures: a block is the root of a sibling search tree when it has no
+   parent register (every top-level node, every tail block) or is the first child of its parent; the tree
+   is what its left/right registers reach.  (number of trees, max height, max size, sum of heights, sum of sizes) *)
+Definition blk_at (a : N) (bs : list (N * tblock)) : option tblock :=
+  match List.find (fun p => fst p =? a) bs with Some p => Some (snd p) | None => None end.
+Fixpoint bst_levels (fuel : nat) (bs : list (N * tblock)) (a lv : N) : list N :=
+  match fuel with
+  | O => []
+  | S f =>
+      match blk_at a bs with
+      | None => [lv]
+      | Some b => lv :: (if b_right b =? 0 then [] else bst_levels f bs (b_right b) (lv + 1))
+                     ++ (if b_left b =? 0 then [] else bst_levels f bs (b_left b) (lv + 1))
+      end
+  end.
+Definition is_bst_root (bs : list (N * tblock)) (a : N) (b : tblock) : bool :=
+  (b_parent b =? 0) || match blk_at (b_parent b) bs with Some pb => b_child pb =? a | None => false end.
+Definition bst_metrics (s : traph) : N * N * N * N * N :=
+  let bs := flatten (tr s) in
+  fold_left (fun (acc : N * N * N * N * N) (p : N * tblock) =>
+               let '(nb, mh, ms, sh, ss) := acc in
+               if is_bst_root bs (fst p) (snd p) then
+                 let lv := bst_levels (S (length bs)) bs (fst p) 0 in
+                 let h := fold_left N.max lv 0 + 1 in
+                 let sz := blen lv in
+                 (nb + 1, N.max mh h, N.max ms sz, sh + h, ss + sz)
+               else acc)
+            bs (0, 0, 0, 0, 0).
